@@ -444,7 +444,7 @@ def correspondence(chk: common.Check, rng, n_cases: int, variant=(0, 1)) -> list
                 bad.append({**rec, "why": "free symbols differ", "real": sorted(map(str, real_res)), "model": sorted(map(str, mset))})
             continue
         try:
-            rebuilt = m1.to_sympy(model, ctx)
+            rebuilt = m1.to_sympy_raw(model, ctx)  # pool sums of the model's result are NOT passed through PoolSum.__new__
         except Exception as e:  # noqa: BLE001
             bad.append({**rec, "why": f"model result cannot be rebuilt: {e!r}", "model": line[:300]})
             continue
